@@ -261,6 +261,20 @@ func buildPlan(c *eng.Ctx) ([]tracePlan, map[string]int) {
 		}
 		flush()
 	}
+	// structured traversal names longer than the exhaustive bound (both tiers): a leading or embedded ".."
+	// followed by two or more further elements, with literal and encoded separators
+	deep := [][]string{
+		{"..", "/", "x", "/", "y"}, {"..", "%2F", "x", "%2F", "y"}, {"..", "%2f", "x", "%2f", "y"},
+		{"..", "/", "..", "/", "x"}, {"..", "%2F", "..", "%2F", "x"}, {"..", "%2F", "..", "%2F", "x", "%2F", "y"},
+		{"x", "/", "..", "/", "..", "/", "y"}, {"x", "%2F", "..", "%2F", "..", "%2F", "y"},
+		{".", "%2F", "..", "%2F", "x", "%2F", "y"}, {"%2E", "%2E", "%2F", "x", "%2F", "y"}, {"%2e", "%2e", "%2f", "x", "%2f", "y"},
+		{"..", "%252F", "x", "%252F", "y"}, {"x", "%2F", "y", "%2F", ".."}, {"x", "%2F", "..", "%2F", "y"},
+		{"x", "%2F", "y", "%2F", "..", "%2F", ".."}, {"..", "%2F", "x", "%2F", "..", "%2F", "y"},
+	}
+	stat["wires_deep"] = len(deep)
+	add("tag", tagFull, deep)
+	add("origin", origFull, deep)
+	add("api", apiFull, deep)
 	add("tag", tagFull, fullW)
 	add("tag", tagFull, sample)
 	add("tag", tagLight, lightW)
